@@ -1,48 +1,6 @@
-/-! C16 prototype: M-FS (sync-strict directory of the on-disk state machine) and the pointer protocol of tests/diskkv.go -/
+import DrummerVerif.Model.Fs
+/-! C16: the invariant of the pointer protocol -/
 namespace DiskKV
-
-def fupd {β : Type} (f : Nat → β) (k : Nat) (v : β) : Nat → β := fun x => if x = k then v else f x
-
-structure FS where
-  cur   : Option Nat := none      -- `current` → file node (volatile view)
-  curS  : Option Nat := none      -- … in the synced directory listing
-  upd   : Option Nat := none      -- `current.updating`
-  updS  : Option Nat := none
-  dirs  : List Nat := []          -- database directories (volatile view)
-  dirsS : List Nat := []          -- … synced
-  fdata : Nat → Option Nat := fun _ => none   -- file node ↦ complete content (the db id it names)
-  fsync : Nat → Option Nat := fun _ => none   -- … synced content
-  next  : Nat := 0                -- fresh node / directory ids
-
-inductive Prim
-  | mkdir (d : Nat) | syncDir | createUpd | writeUpd (d : Nat) | syncUpd | renameUpd | removeUpd | removeDir (d : Nat)
-  deriving Repr
-
-/-- one file-system operation of the protocol (StrictMem semantics) -/
-def step (s : FS) : Prim → FS
-  | .mkdir d => if d ∈ s.dirs then s else { s with dirs := d :: s.dirs, next := max s.next (d + 1) }
-  | .syncDir => { s with curS := s.cur, updS := s.upd, dirsS := s.dirs }
-  | .createUpd => { s with upd := some s.next, fdata := fupd s.fdata s.next none, fsync := fupd s.fsync s.next none, next := s.next + 1 }
-  | .writeUpd d => match s.upd with | some u => { s with fdata := fupd s.fdata u (some d) } | none => s
-  | .syncUpd => match s.upd with | some u => { s with fsync := fupd s.fsync u (s.fdata u) } | none => s
-  | .renameUpd => match s.upd with | some u => { s with cur := some u, upd := none } | none => s
-  | .removeUpd => { s with upd := none }
-  | .removeDir d => { s with dirs := s.dirs.filter (· ≠ d) }
-
-/-- power loss: everything not synced is gone -/
-def crash (s : FS) : FS := { s with cur := s.curS, upd := s.updS, dirs := s.dirsS, fdata := s.fsync }
-
-/-- what `Open` does after a crash: new run, or clean-up and reopen; `none` = it panics -/
-inductive OpenRes | newRun | reopen (d : Nat) | panicCorrupted | panicDirMissing
-  deriving DecidableEq, Repr
-
-def openAfter (s : FS) : OpenRes :=
-  match s.cur with
-  | none => .newRun
-  | some n =>
-    match s.fdata n with
-    | none => .panicCorrupted
-    | some d => if d ∈ s.dirs then .reopen d else .panicDirMissing
 
 /-- the pointer, wherever it is visible, is complete, synced, and names a directory that exists durably -/
 structure Inv (s : FS) : Prop where
@@ -50,6 +8,7 @@ structure Inv (s : FS) : Prop where
   curSOK : ∀ n, s.curS = some n → ∃ d, s.fsync n = some d ∧ d ∈ s.dirsS
   fresh : (∀ n, s.cur = some n → n < s.next) ∧ (∀ n, s.curS = some n → n < s.next) ∧ (∀ n, s.upd = some n → n < s.next)
   updNe : ∀ u, s.upd = some u → s.cur ≠ some u ∧ s.curS ≠ some u
+  updSOK : (∀ n, s.updS = some n → n < s.next) ∧ (∀ u, s.updS = some u → s.curS ≠ some u)
 
 /-- C16 core: from any state satisfying the invariant, a crash followed by `Open` never panics -/
 theorem open_after_crash_ok (s : FS) (h : Inv s) : openAfter (crash s) = .newRun ∨ ∃ d, openAfter (crash s) = .reopen d := by
@@ -76,7 +35,7 @@ theorem step_inv (s : FS) (p : Prim) (h : Inv s) (hp : Pre s p) : Inv (step s p)
     by_cases hd : d ∈ s.dirs
     · simp only [hd, if_true]; exact h
     · simp only [hd, if_false]
-      refine ⟨?_, h.curSOK, ?_, h.updNe⟩
+      refine ⟨?_, h.curSOK, ?_, h.updNe, ⟨fun n hn => Nat.lt_of_lt_of_le (h.updSOK.1 n hn) (Nat.le_max_left _ _), h.updSOK.2⟩⟩
       · intro n hn
         obtain ⟨x, a, b, c, e⟩ := h.curOK n hn
         exact ⟨x, a, b, List.mem_cons_of_mem _ c, e⟩
@@ -86,7 +45,7 @@ theorem step_inv (s : FS) (p : Prim) (h : Inv s) (hp : Pre s p) : Inv (step s p)
                fun n hn => Nat.lt_of_lt_of_le (f3 n hn) (Nat.le_max_left _ _)⟩
   | syncDir =>
     unfold step
-    refine ⟨?_, ?_, ?_, ?_⟩
+    refine ⟨?_, ?_, ?_, ?_, ⟨fun n hn => h.fresh.2.2 n hn, fun u hu => (h.updNe u hu).1⟩⟩
     · intro n hn
       obtain ⟨x, a, b, c, _⟩ := h.curOK n hn
       exact ⟨x, a, b, c, c⟩
@@ -100,7 +59,7 @@ theorem step_inv (s : FS) (p : Prim) (h : Inv s) (hp : Pre s p) : Inv (step s p)
   | createUpd =>
     unfold step
     obtain ⟨f1, f2, f3⟩ := h.fresh
-    refine ⟨?_, ?_, ?_, ?_⟩
+    refine ⟨?_, ?_, ?_, ?_, ⟨fun n hn => Nat.lt_succ_of_lt (h.updSOK.1 n hn), h.updSOK.2⟩⟩
     · intro n hn
       obtain ⟨x, a, b, c, e⟩ := h.curOK n hn
       have : n ≠ s.next := Nat.ne_of_lt (f1 n hn)
@@ -125,7 +84,7 @@ theorem step_inv (s : FS) (p : Prim) (h : Inv s) (hp : Pre s p) : Inv (step s p)
       simp only
       obtain ⟨hn1, hn2⟩ := h.updNe u hu
       obtain ⟨f1, f2, f3⟩ := h.fresh
-      refine ⟨?_, ?_, ⟨f1, f2, fun n hn => f3 n (by rw [hu]; exact hn)⟩, ?_⟩
+      refine ⟨?_, ?_, ⟨f1, f2, fun n hn => f3 n (by rw [hu]; exact hn)⟩, ?_, h.updSOK⟩
       · intro n hn
         obtain ⟨x, a, b, c, e⟩ := h.curOK n hn
         have : n ≠ u := fun he => hn1 (he ▸ hn)
@@ -140,7 +99,7 @@ theorem step_inv (s : FS) (p : Prim) (h : Inv s) (hp : Pre s p) : Inv (step s p)
       simp only
       obtain ⟨hn1, hn2⟩ := h.updNe u hu
       obtain ⟨f1, f2, f3⟩ := h.fresh
-      refine ⟨?_, ?_, ⟨f1, f2, fun n hn => f3 n (by rw [hu]; exact hn)⟩, ?_⟩
+      refine ⟨?_, ?_, ⟨f1, f2, fun n hn => f3 n (by rw [hu]; exact hn)⟩, ?_, h.updSOK⟩
       · intro n hn
         obtain ⟨x, a, b, c, e⟩ := h.curOK n hn
         have : n ≠ u := fun he => hn1 (he ▸ hn)
@@ -158,29 +117,24 @@ theorem step_inv (s : FS) (p : Prim) (h : Inv s) (hp : Pre s p) : Inv (step s p)
       simp only
       obtain ⟨d, a, b, c, e⟩ := hp u hu
       obtain ⟨f1, f2, f3⟩ := h.fresh
-      refine ⟨?_, h.curSOK, ⟨?_, f2, ?_⟩, ?_⟩
+      refine ⟨?_, h.curSOK, ⟨?_, f2, ?_⟩, ?_, h.updSOK⟩
       · intro n hn; simp at hn; subst hn; exact ⟨d, a, b, c, e⟩
       · intro n hn; simp at hn; subst hn; exact f3 _ hu
       · intro n hn; simp at hn
       · intro u' hu'; simp at hu'
   | removeUpd =>
     unfold step
-    refine ⟨h.curOK, h.curSOK, ?_, ?_⟩
+    refine ⟨h.curOK, h.curSOK, ?_, ?_, h.updSOK⟩
     · obtain ⟨f1, f2, _⟩ := h.fresh
       exact ⟨f1, f2, fun n hn => by simp at hn⟩
     · intro u hu; simp at hu
   | removeDir x =>
     unfold step
-    refine ⟨?_, h.curSOK, h.fresh, h.updNe⟩
+    refine ⟨?_, h.curSOK, h.fresh, h.updNe, h.updSOK⟩
     intro n hn
     obtain ⟨d, a, b, c, e⟩ := h.curOK n hn
     have hne : d ≠ x := hp n d (Or.inl hn) (Or.inl a)
     exact ⟨d, a, b, List.mem_filter.mpr ⟨c, by simpa using hne⟩, e⟩
-
-/-- F-C16 witness: today's first `Open` publishes the pointer before the directory exists; a crash right after the
-    publishing `sync dir` makes the next `Open` panic -/
-def unfixedOpenNew (d : Nat) : List Prim := [.createUpd, .writeUpd d, .syncUpd, .syncDir, .renameUpd, .syncDir, .mkdir d, .syncDir]
-def fixedOpenNew (d : Nat) : List Prim := [.mkdir d, .syncDir, .createUpd, .writeUpd d, .syncUpd, .syncDir, .renameUpd, .syncDir]
 
 example : openAfter (crash (((unfixedOpenNew 7).take 6).foldl step {})) = .panicDirMissing := by decide
 example : ∀ k ≤ 8, openAfter (crash (((fixedOpenNew 7).take k).foldl step {})) ≠ .panicDirMissing ∧
